@@ -169,4 +169,96 @@ def parseRequestURI (t : Bytes) : Option URL :=
       | _ => none   -- opaque / rootless forms: not modelled
     | _ => none     -- "invalid URI for request" (`*` is not modelled)
 
+/-! ### `httputil.cleanQueryParams` (runs on the outgoing query when the incoming request's form was parsed) -/
+
+/-- `unescape(s, encodeQueryComponent)`: `%XY` ↦ byte, `+` ↦ space -/
+def queryUnescape : Bytes → Option Bytes
+  | [] => some []
+  | c :: rest =>
+    if c = '%' then
+      match rest with
+      | a :: b :: rest' =>
+        if ishex a && ishex b then (queryUnescape rest').map (Char.ofNat (unhex a * 16 + unhex b) :: ·) else none
+      | _ => none
+    else if c = '+' then (queryUnescape rest).map (' ' :: ·)
+    else (queryUnescape rest).map (c :: ·)
+
+/-- `shouldEscape(c, encodeQueryComponent)` -/
+def shouldEscapeQ (c : Char) : Bool := !(isAlnum c || c = '-' || c = '_' || c = '.' || c = '~')
+
+/-- `url.QueryEscape` -/
+def queryEscape : Bytes → Bytes
+  | [] => []
+  | c :: rest =>
+    if c = ' ' then '+' :: queryEscape rest
+    else if shouldEscapeQ c then '%' :: upperhex (c.toNat / 16) :: upperhex (c.toNat % 16) :: queryEscape rest
+    else c :: queryEscape rest
+
+/-- `strings.Split(s, sep)` for a one-byte separator -/
+def splitByte (sep : Char) : Bytes → List Bytes
+  | [] => [[]]
+  | c :: r =>
+    match splitByte sep r with
+    | [] => [[]]  -- unreachable
+    | x :: xs => if c = sep then [] :: x :: xs else (c :: x) :: xs
+
+/-- `strings.Cut(s, "=")`: before, after ("" when there is no `=`) -/
+def cutEq : Bytes → Bytes × Bytes
+  | [] => ([], [])
+  | c :: r => if c = '=' then ([], r) else let x := cutEq r; (c :: x.1, x.2)
+
+/-- `m[key] = append(m[key], value)` on an insertion-ordered association list -/
+def valuesAdd (m : List (Bytes × List Bytes)) (k v : Bytes) : List (Bytes × List Bytes) :=
+  if m.any (·.1 = k) then m.map fun e => if e.1 = k then (e.1, e.2 ++ [v]) else e else m ++ [(k, [v])]
+
+/-- `url.ParseQuery` (errors ignored, as `cleanQueryParams` does): pairs with a `;`, empty pairs and pairs with a
+malformed escape are dropped -/
+def parseQuery (q : Bytes) : List (Bytes × List Bytes) :=
+  (splitByte '&' q).foldl (fun m pair =>
+    if pair.contains ';' then m
+    else if pair = [] then m
+    else
+      let kv := cutEq pair
+      match queryUnescape kv.1, queryUnescape kv.2 with
+      | some k, some v => valuesAdd m k v
+      | _, _ => m) []
+
+/-- byte-wise `a ≤ b` (Go string order) -/
+def bytesLE : Bytes → Bytes → Bool
+  | [], _ => true
+  | _ :: _, [] => false
+  | a :: as, b :: bs => if a.toNat < b.toNat then true else if b.toNat < a.toNat then false else bytesLE as bs
+
+/-- `Values.Encode`: keys sorted, `QueryEscape(k)=QueryEscape(v)` joined with `&` -/
+def encodeValues (m : List (Bytes × List Bytes)) : Bytes :=
+  let sorted := m.mergeSort fun a b => bytesLE a.1 b.1
+  let pairs := sorted.flatMap fun e => e.2.map fun v => queryEscape e.1 ++ '=' :: queryEscape v
+  List.intercalate ['&'] pairs
+
+/-- does `cleanQueryParams` re-encode? (a `;`, or a `%` not followed by two hex digits) -/
+def needsReencode : Bytes → Bool
+  | [] => false
+  | c :: rest =>
+    if c = ';' then true
+    else if c = '%' then
+      match rest with
+      | a :: b :: rest' => if ishex a && ishex b then needsReencode rest' else true
+      | _ => true
+    else needsReencode rest
+
+/-- `httputil.cleanQueryParams` -/
+def cleanQueryParams (q : Bytes) : Bytes := if needsReencode q then encodeValues (parseQuery q) else q
+
+/-- targets `parseRequestURI` models: origin-form, or absolute-form with `//` and a simple authority; on anything
+else (`*`, opaque forms, userinfo, bracketed IP literals) its `none` does not mean that Go rejects the target -/
+def modelledTarget (t : Bytes) : Bool :=
+  if t.head? = some '/' then true
+  else match scanScheme true t with
+    | .found _ rest =>
+      match (splitQuery rest).1 with
+      | '/' :: '/' :: r2 => simpleAuthority (r2.takeWhile (· ≠ '/'))
+      | _ => false
+    | .err => true      -- "missing protocol scheme": Go rejects it too
+    | .noScheme => t ≠ ['*']
+
 end FwdURL
